@@ -80,7 +80,7 @@ theorem ctl_flush_spec (c : CtlWr) (e : Env) (h : CInv c) (he : EnvOk e) (hop : 
       ∧ (flushTemplate c.w true).len ≤ 125 := by
   have hlen : c.w.buf.length < 2 ^ 63 := by
     have := h.count; have := h.le_limit; have := h.limit_le; omega
-  obtain ⟨w', e', h1, _, h3, _, h5⟩ := flush_spec c.w e h.inv he hop hbuf hlen h.no_err hd
+  obtain ⟨w', e', h1, _, h3, _, h5, _⟩ := flush_spec c.w e h.inv he hop hbuf hlen h.no_err hd
   unfold CtlWr.flush
   simp only [h1]
   refine ⟨_, _, rfl, h3, h5, rfl, ?_, ?_⟩
